@@ -1,13 +1,13 @@
 import StoneVerif.Lemmas.FeCompileLegalRest
 set_option linter.unusedSimpArgs false
 /-!
-A set of spec files that obeys every rule is never refused by the compile model.
+A set of spec files that obeys every rule is never refused by the compileCore model.
 -/
 namespace StoneVerif.FeCompile.L
 open StoneVerif.FeCompile
 
-theorem Legal_parts {rx fs} (h : Legal rx fs = true) : namesLegal fs = true ∧ importsLegal fs = true ∧ DeclsLegal rx fs := by
-  unfold Legal at h
+theorem Legal_parts {rx fs} (h : LegalCore rx fs = true) : namesLegal fs = true ∧ importsLegal fs = true ∧ DeclsLegal rx fs := by
+  unfold LegalCore at h
   simp only [Bool.and_eq_true, List.all_eq_true] at h
   exact ⟨h.1.1, h.1.2, h.2⟩
 
@@ -28,11 +28,11 @@ theorem buildEnv_ok_iff (fs : List File) (hl : nsLexical fs = true) :
     cases addImportsFiles (nsNames fs []) [] fs <;> rfl
 
 /-- **never refused**: legal spec files (namespace names being identifiers) are compiled -/
-theorem legal_compile_ok {rx fs} (hl : nsLexical fs = true) (h : Legal rx fs = true) : ∃ api, compile rx fs = .ok api := by
+theorem legal_compile_ok {rx fs} (hl : nsLexical fs = true) (h : LegalCore rx fs = true) : ∃ api, compileCore rx fs = .ok api := by
   obtain ⟨hn, hi, hd⟩ := Legal_parts h
   have hb := buildEnv_ok_iff fs hl
   rw [hn, hi] at hb
-  unfold compile
+  unfold compileCore
   cases hE : buildEnv fs with
   | error e => rw [hE] at hb; cases hb
   | ok E =>
